@@ -195,6 +195,9 @@ func TestC03(t *testing.T) {
 		})
 		withDebug = rapid.Bool().Draw(t, "with_debug")
 		defer func() { withDebug = false }()
+		if rapid.IntRange(0, 2).Draw(t, "server_builds_its_options_once") > 0 {
+			defer reuseOptions()()
+		}
 		tr := wire.New(sc.Record, io.EOF)
 		if rapid.IntRange(0, 2).Draw(t, "other_accepted_connection_before_first_read") == 0 {
 			sc2 := drawSealed(t, true)
